@@ -54,10 +54,10 @@ var Properties = map[string]PropertyDef{
 	}},
 	"C09": {Cases: C09Cases, Config: func(tier string) Config {
 		return Config{
-			Functions: []string{"vsot.NewSuite/NewSender/NewReceiver", "vsot Sender.Round1/Round3/Round5, Receiver.Round2/Round4/Round6", "dlog/schnorr + fiatshamir proof inside VSOT", "ecbbot.NewSuite/NewSender/NewReceiver, Sender.Round1/Round3, Receiver.Round2", "ecbbot.Popf.Program/Eval, TaggedKeyAgreement", "hashing.HashIndexLengthPrefixed (real SHA-256 over interned encodings)"},
-			Bounds:    map[string]any{"instances": "Xi = 8 (thorough: up to 24), L = 1..3 (thorough 4) blocks", "choices": "concrete corpus of choice bytes (all-zero, all-one, mixed, single bits)", "randomness": "sender's and receiver's streams symbolic"},
-			Assumes:   []string{"random-oracle idealisation: hashes run for real over interned element encodings (provably equal elements ⇒ equal encodings; otherwise different)", "the model group satisfies curves.Curve/curves.Point through a facade with opaque coordinates (symalg/curve.go)", "fresh draws non-zero", "points an honest party transmits are not the identity (the peer's validation refuses the identity; probability Xi·L/q per run)"},
-			Outside:   []string{"SoftSpoken OT extension rounds, RVOLE (E1 covers their bit-level helpers only)", "deviating parties in the OT protocols", "real curves"},
+			Functions: []string{"vsot.NewSuite/NewSender/NewReceiver", "vsot Sender.Round1/Round3/Round5, Receiver.Round2/Round4/Round6", "dlog/schnorr + fiatshamir proof inside VSOT", "ecbbot.NewSuite/NewSender/NewReceiver, Sender.Round1/Round3, Receiver.Round2", "ecbbot.Popf.Program/Eval, TaggedKeyAgreement", "rvole/bbot Alice.Round1/Round3, Bob.Round2/Round4 (OT-based multiplication over ECBBOT, gadget vector, consistency check)", "hashing.HashIndexLengthPrefixed (real SHA-256 over interned encodings)"},
+			Bounds:    map[string]any{"instances": "Xi = 8 (thorough: up to 24), L = 1..3 (thorough 4) blocks", "choices": "concrete corpus of choice bytes (all-zero, all-one, mixed, single bits)", "randomness": "sender's and receiver's streams symbolic", "rvole": "L = 1 (thorough: 2) multiplications per run, xi = 416 OT instances, Alice's inputs and all randomness symbolic, Bob's choice bits from his (concrete) byte stream: c_i + d_i = a_i·b and Bob's consistency check accepts"},
+			Assumes:   []string{"random-oracle idealisation: hashes run for real over interned element encodings (provably equal elements ⇒ equal encodings; otherwise different)", "the model group satisfies curves.Curve/curves.Point through a facade with opaque coordinates (symalg/curve.go)", "fresh draws non-zero", "points an honest party transmits are not the identity (the peer's validation refuses the identity; probability Xi·L/q per run; in the RVOLE harness via the engine's generic-non-identity mode)"},
+			Outside:   []string{"SoftSpoken OT extension rounds and rvole/softspoken (E1 covers the consistency check and the bit-level helpers only)", "deviating parties in the OT protocols", "real curves"},
 		}
 	}},
 	"C12": {Cases: C12Cases, Config: func(tier string) Config {
